@@ -88,9 +88,20 @@ func conc(c *Ctx) {
 	r := c.R
 	s := c.S
 	tight := c.Opt("tight", "") == "1" || (c.Opt("tight", "") == "" && r.Chance(1, 2))
+	if c.Opt("ow", "") == "1" {
+		tight = true
+	}
 	cfg := drawCfg(r, tight)
 	if hl := c.Opt("hard", ""); hl != "" {
 		cfg.HardLimit = cfg.MaxSize + int64(r.Intn(3))*8192
+	}
+	// ow=1: overwrite focus. One AC key whose values differ in their number of
+	// 4 KiB blocks, held locally and (another value) by the backend, a cache of
+	// two to five blocks, large CAS uploads that keep reservations while they
+	// are parked: overwrites and proxy commits meet reservations at the limit.
+	ow := c.Opt("ow", "") == "1"
+	if ow {
+		cfg.MaxSize = []int64{12288, 16384, 20480, 8192}[r.Intn(4)]
 	}
 	s.Policy = drawPolicy(r)
 	c.Logf("cfg %+v policy %+v", cfg, s.Policy)
@@ -105,6 +116,9 @@ func conc(c *Ctx) {
 	nCas := 1 + r.Intn(3)
 	var casBlobs []*world.Blob
 	sizes := []int64{3000, 100, 4096, 5000, 9000, 1}
+	if ow {
+		nCas, sizes = 1+r.Intn(2), []int64{5000, 9000, 4097}
+	}
 	for i := 0; i < nCas; i++ {
 		casBlobs = append(casBlobs, world.Make(world.BlobID{Kind: r.Intn(4), Seed: 100 + i, Size: sizes[r.Intn(len(sizes))]}))
 	}
@@ -172,11 +186,14 @@ func conc(c *Ctx) {
 	var st *world.Store
 	seeded := map[string][]byte{} // key -> value held by the backend from the start
 	nAc := 1 + r.Intn(2)
+	if ow {
+		nAc = 1
+	}
 	acKeys := make([]string, nAc)
 	for i := range acKeys {
 		acKeys[i] = world.HashOf([]byte(fmt.Sprintf("ackey%d", i)))
 	}
-	if c.Opt("backend", "") == "1" || (c.Opt("backend", "") == "" && r.Chance(1, 3)) {
+	if ow || c.Opt("backend", "") == "1" || (c.Opt("backend", "") == "" && r.Chance(1, 3)) {
 		st = world.NewStore(s, cfg.Storage == "zstd")
 		proxy = &world.DirectProxy{St: st}
 		for _, b := range casBlobs {
@@ -190,8 +207,11 @@ func conc(c *Ctx) {
 			}
 		}
 		for i, k := range acKeys {
-			if r.Chance(1, 2) {
+			if ow || r.Chance(1, 2) {
 				v := world.Make(world.BlobID{Kind: 0, Seed: 4900 + i, Size: []int64{300, 5000, 20000}[r.Intn(3)]})
+				if ow {
+					v = world.Make(world.BlobID{Kind: 0, Seed: 4900 + i, Size: []int64{5000, 9000, 4097}[r.Intn(3)]})
+				}
 				st.Objects[world.ObjectName(cache.AC, k, st.V2)] = v.Data
 				seeded["ac/"+k] = v.Data
 			}
@@ -241,7 +261,11 @@ func conc(c *Ctx) {
 	for ci := 0; ci < nClients; ci++ {
 		nOps := 2 + r.Intn(5)
 		for j := 0; j < nOps; j++ {
-			switch r.Weighted(4, 4, 3, 3, 2, 2, 2) {
+			opKind := r.Weighted(4, 4, 3, 3, 2, 2, 2)
+			if ow {
+				opKind = []int{0, 1, 4, 4, 0, 1, 4, 2}[r.Intn(8)]
+			}
+			switch opKind {
 			case 0: // CAS put (maybe corrupted or aborted)
 				b := casBlobs[r.Intn(len(casBlobs))]
 				fault := r.Weighted(8, 1, 1, 1)
